@@ -188,6 +188,34 @@ def _concrete_demo(resname, position, anglenum, neutral, moved_atom, fixed_atom)
     return d0, d1, moved
 
 
+def _angle_demo(resname, position, anglenum, neutral):
+    """concrete replay: which heavy-atom bond angles of the residue change under the torsion change?"""
+    from pdb2pqr import cells as cells_mod
+    from pdb2pqr import debump, utilities
+    from pdb2pqr.config import CELL_SIZE
+
+    bm, res = _setup(resname, position, neutral)
+    deb = debump.Debump(bm)
+    deb.cells = cells_mod.Cells(CELL_SIZE)
+    deb.cells.assign_cells(bm)
+    bonds = [bd for bd in _bonds(res) if not res.get_atom(bd[0]).is_hydrogen and not res.get_atom(bd[1]).is_hydrogen]
+    angles = []
+    for b1 in bonds:
+        for b2 in bonds:
+            if b1 < b2 and set(b1) & set(b2):
+                v = (set(b1) & set(b2)).pop()
+                p, q = (set(b1) - {v}).pop(), (set(b2) - {v}).pop()
+                angles.append((p, v, q))
+    a0 = {t: utilities.angle(res.get_atom(t[0]).coords, res.get_atom(t[1]).coords, res.get_atom(t[2]).coords) for t in angles}
+    deb.set_dihedral_angle(res, anglenum, res.dihedrals[anglenum] + 67.0)
+    changed = []
+    for t in angles:
+        a1 = utilities.angle(res.get_atom(t[0]).coords, res.get_atom(t[1]).coords, res.get_atom(t[2]).coords)
+        if abs(a1 - a0[t]) > 1e-4:
+            changed.append(f"{t[0]}-{t[1]}-{t[2]} {a0[t]:.1f} -> {a1:.1f} deg")
+    return "; ".join(changed[:3])
+
+
 def run_classification(resname, position, neutral=False, heavy_only=True, prop="C04"):
     """lemma obligation for one residue at one chain position: all dihedrals."""
     out = {"lemma_queries": {"sat": 0, "unsat": 0, "unknown": 0}, "lemma_solver_s": 0.0, "distinct": 0, "violations": [], "inconclusive": [], "samples": []}
@@ -231,6 +259,23 @@ def run_classification(resname, position, neutral=False, heavy_only=True, prop="
                     ok = demo and abs(demo[0] - demo[1]) > 1e-6
                     v = {"label": "backbone-or-cap-atom-moves", "values": {**case, "atom": n}, "note": "", "reproduced": bool(ok), "replay_detail": f"{n} is rotated with the side chain about {names[1]}-{names[2]}: concrete run {demo[0]:.3f} A -> {demo[1]:.3f} A to its bonded neighbour; moved atoms {demo[2]}" if demo else "no concrete demo"}
                     (out["violations"] if ok else out["inconclusive"]).append(v if ok else f"{case} {n}: classification says moved, concrete replay shows no distortion")
+        # S3(0): the rotation axis is a bond of the residue (a torsion definition whose atoms 2-3 are not bonded rotates about a non-bond line)
+        bonded_names = {frozenset(bd) for bd in _bonds(res)}
+        if frozenset((names[1], names[2])) not in bonded_names and prop == "C04":
+            demo = _angle_demo(resname, position, anglenum, neutral)
+            out["violations"].append({"label": "axis-is-not-a-bond", "values": case, "note": "", "reproduced": bool(demo), "replay_detail": f"torsion [{' '.join(names)}] rotates about the line {names[1]}...{names[2]}, which is not a bond of {resname}: {demo}"}) if demo else out["inconclusive"].append(f"{case}: axis {names[1]}-{names[2]} is not a bond but the concrete replay keeps all bond angles")
+        # S3(c): bond angles at the pivot: every FIXED heavy neighbour of an axis atom must be the other axis atom or the angle to a moved neighbour changes
+        if prop == "C04":
+            for ax, other in ((names[2], names[1]), (names[1], names[2])):
+                nb = [q for bd in _bonds(res) if ax in bd for q in bd if q != ax]
+                moved_nb = [q for q in nb if q in c["M"]]
+                fixed_nb = [q for q in nb if q in c["F"] and q != other and not is_h(q)]
+                if moved_nb and fixed_nb and ax == names[2]:
+                    demo = _angle_demo(resname, position, anglenum, neutral)
+                    if demo:
+                        out["violations"].append({"label": "bond-angle-changed-by-rotation", "values": {**case, "vertex": ax, "fixed": fixed_nb, "moved": moved_nb}, "note": "", "reproduced": True, "replay_detail": f"[{' '.join(names)}]: {moved_nb} rotate about {names[1]}-{names[2]} while {fixed_nb}, also bonded to {ax}, stay and are not on the axis: {demo}"})
+                    else:
+                        out["inconclusive"].append(f"{case}: angle condition fails at {ax} but the concrete replay keeps all bond angles")
         # S3(b): every bond between a moved and a fixed atom ends on the axis
         for p, q in _bonds(res):
             for mv, fx in ((p, q), (q, p)):
@@ -432,6 +477,76 @@ def _flip_demo(resname, position, outcome):
 
 
 # ---------------------------------------------------------------------------
+# S4b: the position helpers of hydrogens/optimize.py (they rotate substituents three times by 120 degrees
+# to find free tetrahedral positions and must leave every input atom where it was)
+# ---------------------------------------------------------------------------
+
+
+def run_position_helpers(resname, oxygen, nsub):
+    """real Optimize.get_positions_with_two_bonds / get_position_with_three_bonds on a real hydroxyl whose
+    substituent count is nsub; Residue.rotate_tetrahedral is replaced by a tracker (which bond, which atoms,
+    net angle): only hydrogens / lone pairs bonded to the oxygen may turn, about the anchor-oxygen bond, and
+    the net turn of every atom is a multiple of 360 degrees.  A violation is replayed on the real code."""
+    from pdb2pqr import residue as residue_mod
+    from pdb2pqr.hydrogens import optimize
+
+    out = {"table_rows": 1, "distinct": 1, "violations": [], "inconclusive": [], "samples": []}
+
+    def build():
+        bm, res = _setup(resname, "internal", False)
+        o = res.get_atom(oxygen)
+        k = 0
+        while len(o.bonds) < nsub:
+            k += 1
+            res.create_atom(f"LP{k}", [o.x + 0.5 * k, o.y - 0.6, o.z + 0.4 * k])
+            lp = res.get_atom(f"LP{k}")
+            o.bonds.append(lp)
+            lp.bonds.append(o)
+        return bm, res, o
+
+    bm, res, o = build()
+    anchor = o.bonds[0]
+    turns = {}
+    bad = []
+
+    def tracker(atom1, atom2, angle):
+        moved = [a for a in atom2.bonds if a is not atom1]
+        if atom1 is not anchor or atom2 is not o:
+            bad.append(f"rotation about {atom1.name}->{atom2.name} instead of {anchor.name}->{o.name}")
+        for a in moved:
+            turns[a.name] = turns.get(a.name, 0) + angle
+            if not a.is_hydrogen and not a.name.startswith("LP"):
+                bad.append(f"heavy atom {a.name} is rotated")
+
+    case = {"residue": resname, "oxygen": oxygen, "substituents": nsub}
+    with patched((type(res), "rotate_tetrahedral", staticmethod(tracker)), (optimize.util, "distance", lambda a, b: 1.0)):
+        if nsub == 2:
+            optimize.Optimize.get_positions_with_two_bonds(o)
+        else:
+            optimize.Optimize.get_position_with_three_bonds(o)
+    for n, t in turns.items():
+        if t % 360:
+            bad.append(f"{n} is left turned by {t % 360} degrees")
+    out["samples"].append({**case, "turns": turns})
+    if bad:
+        # concrete replay through the real rotate_tetrahedral: did an input heavy atom move?
+        from pdb2pqr import utilities
+
+        bm2, res2, o2 = build()
+        before = {a.name: tuple(a.coords) for a in res2.atoms}
+        if nsub == 2:
+            optimize.Optimize.get_positions_with_two_bonds(o2)
+        else:
+            optimize.Optimize.get_position_with_three_bonds(o2)
+        moved = [(a.name, utilities.distance(a.coords, before[a.name])) for a in res2.atoms if not a.is_hydrogen and not a.name.startswith("LP") and utilities.distance(a.coords, before[a.name]) > 1e-6]
+        if moved:
+            out["violations"].append({"label": "position-helper-moves-input-atoms", "values": case, "note": "", "reproduced": True, "replay_detail": f"{'; '.join(bad[:3])}; concrete replay: input heavy atoms displaced {[(n, round(float(d), 3)) for n, d in moved]}"})
+        else:
+            out["inconclusive"].append(f"{case}: {bad[:2]} but the concrete replay leaves every heavy atom in place")
+    return out
+
+
+# ---------------------------------------------------------------------------
 # S5: option gating on the real driver (flow harness)
 # ---------------------------------------------------------------------------
 
@@ -552,6 +667,9 @@ def obligations(tier, prop="C04"):
         from . import c15
 
         seqs = [("LEU", [1, 0, 1]), ("LYS", [2, 1, 2]), ("MET", [1, 0, 1]), ("PHE", [1, 0, 1])] if tier == "quick" else [(r, [k, j, k]) for r, nd in (("LEU", 2), ("LYS", 4), ("MET", 3), ("PHE", 2), ("ARG", 4), ("GLU", 3), ("GLN", 3), ("ILE", 2), ("TYR", 2), ("HIS", 2)) for k in range(1, nd) for j in range(k)]
+        for r, ox in (("SER", "OG"), ("THR", "OG1"), ("TYR", "OH")):
+            for nsub in (2, 3):
+                obs.append(Obligation(f"position-helpers-{r}-{nsub}", run_position_helpers, dict(resname=r, oxygen=ox, nsub=nsub), kind="table", group="position-helpers"))
         for r in ("ASN", "GLN", "HIS"):
             for pos in ("internal",) if tier == "quick" else POSITIONS:
                 for outcome in ("undecided", "keep", "flip"):
